@@ -6,7 +6,7 @@
 (* verdict of every event is total: a set of failing clause names (empty = *)
 (* accepted) printed as JSON {"V": id, "c": [clauses]}.                              *)
 (***************************************************************************)
-EXTENDS Json, IOUtils, TLC, JSearch, JArrays, JProcess, JRfa, JRfaRel, JMatch, JPipeline, JWeaver
+EXTENDS Json, IOUtils, TLC, JSearch, JArrays, JProcess, JRfa, JRfaRel, JMatch, JPipeline, JWeaver, JEnv
 
 Trace == JsonDeserialize(IOEnv.TRACE_FILE)
 Chunk == atoi(IOEnv.TRACE_CHUNK)
@@ -50,6 +50,8 @@ Verdict(e) ==
       [] e.fn = "whist" -> V_whist(e)
       [] e.fn = "wrestore" -> V_wrestore(e)
       [] e.fn = "reject_misc" -> V_reject_misc(e)
+      [] e.fn = "noise" -> V_noise(e)
+      [] e.fn = "smooth" -> V_smooth(e)
       [] OTHER -> {"machinery.unknown_fn"}
 
 \* one line of JSON per event (TLC pretty-prints long tuples over several lines; a JSON string stays on one)
